@@ -67,11 +67,13 @@ def build(flavour="ship", quiet=True):
     if os.path.isdir(out):
         shutil.rmtree(out)
     os.makedirs(out)
-    # drop stale builds of the same flavour (disk is limited)
+    # drop old builds of the same flavour (disk is limited); keep the 10 most recent ones because
+    # self-test runs (VERIF_REPO_SRC=scratch copy) build concurrently with checks of /repo
     parent = os.path.dirname(out)
-    for n in os.listdir(parent):
-        if n.startswith("nvx-%s-" % flavour) and os.path.join(parent, n) != out:
-            shutil.rmtree(os.path.join(parent, n), ignore_errors=True)
+    olds = sorted((os.path.getmtime(os.path.join(parent, n)), n) for n in os.listdir(parent)
+                  if n.startswith("nvx-%s-" % flavour) and os.path.join(parent, n) != out)
+    for _, n in olds[:-10]:
+        shutil.rmtree(os.path.join(parent, n), ignore_errors=True)
     if flavour == "ship":
         cargs = _load_compile_args()
         largs = []
@@ -122,7 +124,7 @@ def worker_env(flavour):
     if flavour == "asan":
         env.update({
             "LD_PRELOAD": ASAN_RT,
-            "ASAN_OPTIONS": "detect_leaks=0:halt_on_error=1:abort_on_error=1:allocator_may_return_null=1",
+            "ASAN_OPTIONS": "detect_leaks=0:halt_on_error=1:abort_on_error=1:allocator_may_return_null=1:quarantine_size_mb=4:malloc_context_size=0",
             "UBSAN_OPTIONS": "halt_on_error=1:print_stacktrace=1",
             "PYTHONMALLOC": "malloc",
         })
